@@ -40,6 +40,31 @@ type c22world struct {
 	log     []string
 	stats   map[string]int
 	touched []string
+	// lazy store over a database that already holds data: until the database is produced (InitUnderlyingDb or the
+	// first Flush) the store reads as an empty underlying store plus the overlay; afterwards as pendingX plus the overlay
+	pendingX  kvm.Model
+	initUnder func() error
+}
+
+func (w *c22world) materialise() {
+	x := w.pendingX
+	w.pendingX, w.initUnder = nil, nil
+	nv := x.Copy()
+	for k := range w.dirty {
+		if v, ok := w.V[k]; ok {
+			nv[k] = v
+		} else {
+			delete(nv, k)
+		}
+	}
+	for k, v := range x {
+		if !w.dirty[k] {
+			w.noteWrite(k, v, true) // iterators created earlier may or may not show the database's keys
+		}
+		w.touched = append(w.touched, k)
+	}
+	w.U, w.V = x.Copy(), nv
+	w.stats["lazy_database_with_data_produced"]++
 }
 
 func (w *c22world) noteWrite(k string, v []byte, present bool) {
@@ -81,6 +106,15 @@ func (w *c22world) someKey(r *rand.Rand) []byte {
 }
 
 func (w *c22world) step(r *rand.Rand) string {
+	if w.initUnder != nil && r.Intn(12) == 0 {
+		w.log = append(w.log, "InitUnderlyingDb")
+		if err := w.initUnder(); err != nil {
+			return "InitUnderlyingDb error " + err.Error()
+		}
+		w.materialise()
+		w.stats["lazy_produced_by_InitUnderlyingDb"]++
+		return w.afterOp(r)
+	}
 	c := r.Intn(100)
 	switch {
 	case c < 22:
@@ -111,13 +145,17 @@ func (w *c22world) step(r *rand.Rand) string {
 		k, v := w.someKey(r), kvm.Key(r, 0, 3)
 		dl := r.Intn(3) == 0
 		w.log = append(w.log, fmt.Sprintf("batch del=%v %x=%x", dl, k, v))
+		kb, vb := append([]byte{}, k...), append([]byte{}, v...)
 		if dl {
-			w.batch.Delete(append([]byte{}, k...))
+			w.batch.Delete(kb)
 			w.pending = append(w.pending, kvBatchOp{true, k, nil})
 		} else {
-			w.batch.Put(append([]byte{}, k...), append([]byte{}, v...))
+			w.batch.Put(kb, vb)
 			w.pending = append(w.pending, kvBatchOp{false, k, v})
 		}
+		// the caller's buffers are reused right after queueing, long before Write
+		scribble(kb)
+		scribble(vb)
 	case c < 45:
 		if w.batch == nil {
 			return ""
@@ -140,6 +178,9 @@ func (w *c22world) step(r *rand.Rand) string {
 		w.log = append(w.log, "flush")
 		if err := w.fl.Flush(); err != nil {
 			return "Flush error " + err.Error()
+		}
+		if w.pendingX != nil {
+			w.materialise() // the first Flush produced the database
 		}
 		w.U = w.V.Copy()
 		w.dirty = map[string]bool{}
@@ -281,7 +322,11 @@ func (w *c22world) step(r *rand.Rand) string {
 			}
 		}
 	}
-	// ---- after every operation
+	return w.afterOp(r)
+}
+
+// afterOp: the checks made after every operation
+func (w *c22world) afterOp(r *rand.Rand) string {
 	if n := w.fl.NotFlushedPairs(); n != len(w.dirty) {
 		return fmt.Sprintf("NotFlushedPairs()=%d, distinct keys written since the last flush/drop: %d", n, len(w.dirty))
 	}
@@ -294,11 +339,11 @@ func (w *c22world) step(r *rand.Rand) string {
 }
 
 func runC22(c *ev.Ctx) {
-	c.Rule = "random sequences of 80 operations on flushable.Wrap(X) and flushable.NewLazy(X), X in {memory, LevelDB, Pebble} (X pre-filled for Wrap): put, delete, batch put/delete/write, flush, drop-not-flushed, snapshots (get/iterate later), iterators created BEFORE later writes and advanced afterwards, full iterations for random (prefix,start) incl. nil, ff and a\\xff. " +
+	c.Rule = "random sequences of 80 operations on flushable.Wrap(X) and flushable.NewLazy(X), X in {memory, LevelDB, Pebble} (X pre-filled for Wrap): put, delete, batch put/delete/write (the caller's key and value buffers are overwritten right after every Put and batch.Put), InitUnderlyingDb on lazy stores whose database already holds data, flush, drop-not-flushed, snapshots (get/iterate later), iterators created BEFORE later writes and advanced afterwards, full iterations for random (prefix,start) incl. nil, ff and a\\xff. " +
 		"Oracle after EVERY operation: NotFlushedPairs == number of distinct keys written since the last flush/drop, Get/Has of 6 keys; iterations equal the model (underlying overlaid with unflushed writes, ascending); after Flush the raw underlying store equals the view; after Drop the view equals the underlying; snapshots keep their creation-time content; " +
 		"iterators created before writes are held to the weak contract only (strictly ascending, inside prefix/start, each pair was the key's value at some time since creation, untouched keys are not lost). " +
 		"non-trivial = distinct sequences containing a tombstone over an underlying key, a flush, a drop, a snapshot read after divergence and an iteration with a prefix ending in 0xff"
-	c.Assumptions = []string{"non-nil keys and values", "a lazy flushable starts over an empty database", "the store is used from one goroutine here (C28 covers concurrency)"}
+	c.Assumptions = []string{"non-nil keys and values", "a lazy flushable reads as an empty underlying store plus its overlay until its database is produced (InitUnderlyingDb or the first Flush); from then on the produced database, which may already hold data, is its underlying store", "the store is used from one goroutine here (C28 covers concurrency)"}
 	nSeq := c.Pick(12000, 400000)
 	workers := 16
 	c.Parallel(workers, workers, func(wk int) {
@@ -337,6 +382,15 @@ func runC22(c *ev.Ctx) {
 						return X
 					}
 					return nil
+				}
+				if s%10 == 9 { // the database the lazy store will produce already holds data (a re-opened database)
+					w.pendingX = kvm.Model{}
+					for k := 0; k < 1+r.Intn(8); k++ {
+						key, v := kvm.Key(r, 0, 3), kvm.Key(r, 0, 2)
+						_ = X.Put(key, v)
+						w.pendingX[string(key)] = v
+					}
+					w.initUnder = func() error { _, err := lz.InitUnderlyingDb(); return err }
 				}
 			} else {
 				for k := 0; k < r.Intn(8); k++ {
